@@ -404,6 +404,10 @@ func runC15(w *World, r *Report) {
 		}
 	}
 
+	// ---- the run-time checker looks only at keys the value carries
+	r.Rule("C15.checker-present-keys", "validateFieldMapping's combined checker invokes a per-field checker only for a key that is present in the mapped value (a streamed chunk may lack keys)", 1)
+	checkerPresentKeys(w, r, "C15.checker-present-keys")
+
 	// ---- records-accumulate
 	r.Rule("C15.records-accumulate", "fieldMappingRecords[node] = append(fieldMappingRecords[node], mappings...)", 1)
 	updTV := w.Fn("compose", "graph.updateToValidateMap")
@@ -745,4 +749,59 @@ func directExtractResult(fn *ssa.Function, v ssa.Value) bool {
 		return true
 	}
 	return false
+}
+
+// checkerPresentKeys: inside validateFieldMapping's literals, every call of a per-field checker (handlerPair.invoke
+// read out of the fieldCheckers map) on a value looked up in the mapped value is guarded by the key's presence:
+// the call sits inside a range over that very map with a key-equality test, or on the ok arm of a comma-ok lookup.
+func checkerPresentKeys(w *World, r *Report, rule string) {
+	vfm := w.Fn("compose", "validateFieldMapping")
+	fInvoke := w.Field("compose", "handlerPair", "invoke")
+	n := 0
+	for _, lit := range vfm.AnonFuncs {
+		instrs(lit, func(in ssa.Instruction) {
+			c, ok := in.(*ssa.Call)
+			if !ok || c.Call.IsInvoke() || staticCallee(c) != nil {
+				return
+			}
+			if f, _ := loadedField(c.Call.Value); f == nil || !sameField(f, fInvoke) {
+				if fv, ok := c.Call.Value.(*ssa.Field); !ok || !sameField(fieldVarOfField(fv), fInvoke) {
+					return
+				}
+			}
+			if len(c.Call.Args) != 1 {
+				return
+			}
+			lk, ok := c.Call.Args[0].(*ssa.Lookup)
+			if !ok {
+				return
+			}
+			n++
+			present := false
+			// (a) comma-ok on the same map
+			if hasGuard(c.Block(), func(g guard) bool {
+				e, ok := g.cond.(*ssa.Extract)
+				if !ok || e.Index != 1 || !g.pol {
+					return false
+				}
+				l2, ok := e.Tuple.(*ssa.Lookup)
+				return ok && l2.CommaOk && l2.X == lk.X
+			}) {
+				present = true
+			}
+			// (b) the lookup key is the key variable of a range over the same map (possibly after an equality test)
+			if e, ok := lk.Index.(*ssa.Extract); ok {
+				if nx, ok := e.Tuple.(*ssa.Next); ok {
+					if rg, ok := nx.Iter.(*ssa.Range); ok && rg.X == lk.X {
+						present = true
+					}
+				}
+			}
+			r.Check(present, rule, fmt.Sprintf("%s: per-field checker call #%d", w.fname(lit), n), c.Pos(), "the checked key is known to be present in the value",
+				"a per-field run-time checker is invoked for a key the value does not carry: in streaming execution a chunk that lacks a run-time-checked key gets nil checked (and stored back) — Collect/Transform fail with 'field[<nil>] … not assignable' or panic in convertTo while Invoke on the same data succeeds")
+		})
+	}
+	if n == 0 {
+		undecidedf("%s: no per-field checker call found in validateFieldMapping's literals", rule)
+	}
 }
